@@ -4,7 +4,7 @@ import re
 
 from . import gen, hist
 from .refs import RefError, prelude_from_decls
-from .runner import Check, bump, death_of, empty_result, log_hash, stable_hash, sub_rng
+from .runner import Check, sim_ticks, bump, death_of, empty_result, log_hash, stable_hash, sub_rng
 
 RES = {1: 'sat', -1: 'unsat', 0: 'unknown', 2: 'error', 99: 'unfinished'}
 
@@ -93,6 +93,7 @@ class C24(Check):
         flav = case['flavour']
         resp = ctx.osim(flav).run(self.plan(case))
         bump(res, 'runs')
+        bump(res, 'sim-ticks', sim_ticks(resp))
         bump(res, 'flavour:' + flav)
         d = death_of(resp)
         if d and d[0] == 'harness':
@@ -270,6 +271,7 @@ class C25(Check):
         if d and d[0] == 'harness':
             raise RuntimeError('harness: %r' % (d[1],))
         log = resp.get('log', [])
+        bump(res, 'sim-ticks', sim_ticks(resp) + sim_ticks(dry))
         tr = next((x for x in log if x.get('ev') == 'task' and x.get('kind') == 'solve'), None)
         st = next((x for x in log if x.get('ev') == 'task' and x.get('kind') == 'stopper'), None)
         sched = next((x for x in log if x.get('ev') == 'sched'), {'trace': []})
